@@ -89,6 +89,8 @@ type duSc struct {
 	Target   int      `json:"target"` // findpeer: index into wan (even) or lan (odd) peers
 	Count    int      `json:"count"`
 	HostAddr []string `json:"host_addrs"`
+	LocalWan int      `json:"local_wan,omitempty"` // getvalue: rank of a record the WAN DHT holds locally (0: none)
+	LocalLan int      `json:"local_lan,omitempty"` // ... the LAN DHT
 }
 
 type duValidator struct{}
@@ -286,6 +288,10 @@ func dualCheck(prop, part string, ops []string) verifsim.Check[duSc] {
 			if (sc.Op == "putvalue" || sc.Op == "provide") && verifsim.Chance(t, "wanFault", 35) {
 				sc.WanFault = map[string]string{"putvalue": "newer-local", "provide": "no-providers"}[sc.Op]
 			}
+			if sc.Op == "getvalue" && verifsim.Chance(t, "localRecords", 40) {
+				sc.LocalWan = rapid.IntRange(0, 3).Draw(t, "localWan")
+				sc.LocalLan = rapid.IntRange(0, 3).Draw(t, "localLan")
+			}
 			sc.HostAddr = rapid.SliceOfNDistinct(rapid.SampledFrom([]string{"pub4", "pub6", "priv4", "ula6", "lo4"}), 0, 4, func(s string) string { return s }).Draw(t, "hostAddrs")
 			return sc
 		},
@@ -342,6 +348,15 @@ func dualCheck(prop, part string, ops []string) verifsim.Check[duSc] {
 						id := peer.ID(pp.IDs[sd.peers[si].ID])
 						h.Net().AddConn(id, duAddr("pub4", g*100+n*7+sd.peers[si].ID))
 						rtd.RoutingTable().TryAddPeer(id, true, false)
+					}
+				}
+				if sc.Op == "getvalue" {
+					// records held locally (written while the tables are still empty: nothing goes out)
+					if sc.LocalWan > 0 {
+						_ = d.WAN.PutValue(context.Background(), key, []byte(fmt.Sprintf("%d|k%d|localwan", sc.LocalWan, sc.Key)))
+					}
+					if sc.LocalLan > 0 {
+						_ = d.LAN.PutValue(context.Background(), key, []byte(fmt.Sprintf("%d|k%d|locallan", sc.LocalLan, sc.Key)))
 					}
 				}
 				seed(wan, d.WAN, sc.WanSeeds, 1)
@@ -420,7 +435,29 @@ func dualCheck(prop, part string, ops []string) verifsim.Check[duSc] {
 						return b
 					}
 					wv, lv := best(wan.sim), best(lan.sim)
+					rank := func(v []byte) int { r, _, _ := duParse(v); return r }
+					// a record held locally takes part in that side's search like any answer
+					if sc.LocalWan > 0 && (wv == nil || sc.LocalWan > rank(wv)) {
+						wv = []byte(fmt.Sprintf("%d|k%d|localwan", sc.LocalWan, sc.Key))
+					}
+					if sc.LocalLan > 0 && (lv == nil || sc.LocalLan > rank(lv)) {
+						lv = []byte(fmt.Sprintf("%d|k%d|locallan", sc.LocalLan, sc.Key))
+					}
+					sameRank := func(a, b []byte) bool { // (values of one rank tie under the validator: any of them)
+						return (duValidator{}).Validate(key, a) == nil && rank(a) == rank(b)
+					}
+					if sc.LocalWan > 0 || sc.LocalLan > 0 {
+						res.Class("getvalue-with-local-record")
+					}
 					switch {
+					case wv != nil && (sc.LocalWan > 0 || sc.LocalLan > 0):
+						if err != nil || !sameRank(got, wv) {
+							res.Fail("getvalue-prefers-wan", "C15/getvalue/not-wan", "the WAN search (local record rank %d) found %q but dual returned %q (%v); LAN had %q", sc.LocalWan, wv, got, err, lv)
+						}
+					case lv != nil && wv == nil && (sc.LocalWan > 0 || sc.LocalLan > 0):
+						if err != nil || !sameRank(got, lv) {
+							res.Fail("getvalue-falls-back", "C15/getvalue/not-lan", "WAN found nothing, the LAN search (local record rank %d) found %q but dual returned %q (%v)", sc.LocalLan, lv, got, err)
+						}
 					case wv != nil:
 						if err != nil || !bytes.Equal(got, wv) {
 							res.Fail("getvalue-prefers-wan", "C15/getvalue/not-wan", "the WAN lookup found %q but dual returned %q (%v); LAN had %q", wv, got, err, lv)
